@@ -109,7 +109,7 @@ def process(part, ia32, items, syntax_att=True):
             r = None                 # branch to a symbol: the displacement is a relocation
         mn = refs[0].mnemo
         if r is None:
-            part.ok(core.h64(('i', line, b)), outcome=(mn, kd))
+            part.ok(core.h64(('i', line, b)), outcome=(mn, kd), sample={'line': line, 'candidate': b.hex(), 'objdump': od[1]} if len(part.samples) < 2 else None)
         else:
             part.n += 1
             sig = 'syntax=intel mnemo=%s ops=%s field=%s gas=%s' % (mn, kd, r[0], 'accepts' if g else 'rejects')
@@ -204,7 +204,6 @@ def run(tier, seed):
     vocab = G.vocabulary(ia32)
     part = core.run_sharded(shard, (tier, seed), nshards=core.NPROC * 8)
     part.counters['vocabulary'] = len(vocab)
-    part.samples = [{'line': 'add eax, 128', 'candidates': ['0580000000', '81c080000000'], 'note': '83 c0 80 would read back as 0xffffff80'}] + part.samples[:3]
     rule = ('case = (line, candidate): lines rendered from specs = vocabulary (%d mnemonics from the assembler table expanded through the suffix scheme + '
             'synonyms/pseudo-ops) x operand-shape alphabet (registers of every file, memory with every size keyword x 14 address forms, boundary '
             'immediates -129..2^32-1, symbol) for arity 0, 1 (full alphabet) and 2 (reduced alphabet, full product), plus the corpus (3-operand forms); '
